@@ -269,7 +269,11 @@ func (g *gen) progSequence() ([]byte, []byte, []byte) {
 		}
 	}
 	if depth > 0 {
-		a.storeTopAndReturn()
+		if r.Chance(1, 5) { // end by REVERT with the top of the stack as data
+			a.pushU(0).op(0x52).pushU(uint64(r.Intn(40))).pushU(0).op(0xfd)
+		} else {
+			a.storeTopAndReturn()
+		}
 	}
 	return a.bytes(), r.Bytes(r.Intn(40)), g.auxProg()
 }
@@ -1041,8 +1045,15 @@ func (g *gen) precompileInput(addr int) []byte {
 				}
 			}
 		}
+		// one word from the boundary lattice at a time (two with probability 1/4): three at once
+		// nearly always saturate the price at MaxUint64 and hide the arithmetic in between
+		special := r.Intn(3)
+		both := r.Chance(1, 4)
 		for w := 0; w < 3; w++ {
-			v := lenWord(r)
+			v := big.NewInt(int64(r.Intn(40)))
+			if w == special || (both && w == (special+1)%3) {
+				v = lenWord(r)
+			}
 			bs := v.Bytes()
 			for i := 0; i < 32; i++ {
 				in[w*32+i] = 0
@@ -1439,6 +1450,9 @@ func main() {
 		value := big.NewInt(0)
 		if r.Chance(1, 8) {
 			value = big.NewInt(int64(r.Intn(1000)))
+		}
+		if r.Chance(1, 60) { // more than the origin owns: ErrInsufficientBalance before anything runs
+			value = new(big.Int).Exp(big.NewInt(10), big.NewInt(21), nil)
 		}
 		var code, input, aux, aux2 []byte
 		kind := ""
